@@ -50,10 +50,10 @@ claims = {
          "SCCP-style specialisation + backward dependence slices + configuration read sets on go/ssa", "4 C12"),
  "C14": ("Decides the guard clauses: ToObfuscate has a single decision point behind the runtime/cgo/fips140/empty exclusions; the no-match rejection is exactly mainBuild && !anyToObfuscate && !matches(runtime) and dominates every success return; "
          "all 21 hashWithPackage and 5 hashWithStruct call sites, literals.Obfuscate and printFile's directives run only under ToObfuscate of their own package value (access-path equality; closures at creation, helpers at all call sites) or are in the reviewed list; GOGARBLE is hashed. "
-         "Decides these clauses, not the behaviour of mixed programs.",
+         "anyToObfuscate counts only packages of the user's build, not the linknamed std packages folded into the listing. Known finding F20: source directories and assembly file names are hashed for non-selected packages too, so their positions are not verbatim. Decides these clauses, not the behaviour of mixed programs.",
          "dominance by edge facts over access paths (go/ssa), interprocedural through closures and helpers", "4 C14"),
  "C17": ("Decides lock typestate of the patched linker (Lock dominates stamp read/patch/build/stamp write; error returns leave the flag clear so the deferred function unlocks; success returns set it and return unlock; no early unlock; caller defers unlock before running the linker), "
-         "that every file visible to other garble processes is created O_EXCL/unique, under the linker lock, or via the cache API (one reviewed in-place rewrite), and that garble has no goroutines (positive control). Decides these clauses, not any interleaving.",
+         "that every file visible to other garble processes is created O_EXCL/unique, under the linker lock, or via the cache API (one reviewed in-place rewrite), that the directory shared with toolexec children is a fresh MkdirTemp per command, and that garble has no goroutines (positive control). Decides these clauses, not any interleaving.",
          "typestate/dominance on go/ssa + filesystem-effect enumeration", "4 C17"),
  "C18": ("Decides ordering clauses: stamp written only on the nil edge of buildLinker; reuse guarded by stamp+file+size; every path to buildLinker has a mismatching stamp or removes stamp first (path enumeration, const-trip loops); "
          "the shared dir is a fresh MkdirTemp per command; all writes under the cache dir are PutBytes or the linker under its lock. Decides these clauses, not the effect of a kill at any instant.",
@@ -63,10 +63,10 @@ claims = {
          "name pairs are emitted sorted; the abi patch anchor occurs exactly once in the pinned toolchain's internal/abi/type.go and the linkname names agree; shares R07.2 with C07 (facts of a dependency that can reach reflect transitively are recomputed on a cache miss, merged and stored). Decides these clauses, not the soundness of the taint heuristic over all flows.",
          "component/field/case coverage extraction from go/ssa + text-level agreement with GOROOT source", "4 C08"),
  "C13": ("Decides single-source clauses: garble map takes every name from obfuscatedObjectName and every path from obfuscatedImportPath (no hashing of its own); every transformer field the naming decision transitively reads is set by "
-         "transformerForListedPackage; build/map/reverse fill the package list through toolexecCmd -> appendListedPackages and type-check with <pkg>.ImportPath and importerForPkg(<pkg>); map skips objects only for the four documented reasons. "
+         "transformerForListedPackage; build/map/reverse fill the package list through toolexecCmd -> appendListedPackages and type-check with <pkg>.ImportPath and importerForPkg(<pkg>); map skips objects only for the documented reasons and takes the same pre-steps as the build's identifier visitor (blank names, embedded fields named after their type); reverse has a case for every kind of object map lists (funcs, types, package-level vars, fields, interface methods). "
          "Decides these clauses, not equality of compile-time and go-list type information.",
          "call-graph field-read coverage and provenance slices on go/ssa", "4 C13"),
- "C15": ("Decides dependency clauses: the struct case of the bundled identity hasher calls only NumFields/Field/Name/Anonymous (no Tag, Pos, Pkg, field types), nothing reachable from it iterates a map or reads configuration; "
+ "C15": ("Decides dependency clauses: the struct case of the bundled identity hasher calls only NumFields/Field/Name/Anonymous (no Tag, Pos, Pkg, field types), nothing reachable from it iterates a map or reads configuration; no naming exception depends on the declaring package beyond the four std packages matched by import path (shared R02.8); "
          "all 4 hashWithStruct sites pass (fieldToStruct[o], o) with o an origin field, or a field enumerated from the same struct value; recordFieldToStruct skips instantiated structs and descends through Origin().Underlying(). "
          "Decides these clauses, not Identical(t,t') => equal salt for every type shape.",
          "closed-set call check on a type-switch region + operand provenance on go/ssa", "4 C15"),
